@@ -6,6 +6,7 @@ import (
 	"errors"
 	"fmt"
 	"io"
+	"strings"
 
 	"github.com/256dpi/lungo"
 	"go.mongodb.org/mongo-driver/bson"
@@ -25,7 +26,7 @@ func init() {
 		Assumptions: []string{"bytes.Reader is the model of read/seek behaviour (a rejected negative seek keeps the position in both)", "invalid whence values and chunk sizes above the 16 MiB buffer are not driven"},
 		Batches:     func(tier string) int { return 16 },
 		Require: func(tier string) map[string]int64 {
-			return map[string]int64{"uploads_completed": 300, "companion_files": 60, "script_steps": 8000, "chunk_census": 300, "suspend_resume": 60, "aborts": 30, "deletes": 30, "cleanups": 30, "buffer_crossing_uploads": 2, "negative_seeks_rejected": 100, "reads_at_eof": 300}
+			return map[string]int64{"uploads_completed": 300, "companion_files": 60, "uploads_with_their_own_chunk_size": 20, "script_steps": 8000, "chunk_census": 300, "suspend_resume": 60, "aborts": 30, "deletes": 30, "cleanups": 30, "buffer_crossing_uploads": 2, "negative_seeks_rejected": 100, "reads_at_eof": 300}
 		},
 		Run: runC18,
 	})
@@ -427,7 +428,17 @@ func c18Run(c *fw.Ctx, ctx context.Context, client lungo.IClient, r *fw.Rand, id
 		db := client.Database(fmt.Sprintf("g%d", idx))
 		defer db.Drop(ctx)
 		e := &c18Env{c: c, ctx: ctx, db: db, cs: cs, desc: desc}
-		e.bucket = lungo.NewBucket(db, options.GridFSBucket().SetChunkSizeBytes(int32(cs)))
+		// tracked uploads: in every other case the bucket's default chunk size is
+		// another one than the upload's own (given with each open); the file
+		// record and the chunks must follow the upload's
+		bucketCS := cs
+		var upOpts []*options.UploadOptions
+		if strings.HasPrefix(lifeNames[lifecycle], "tracked") && r.Bool() {
+			bucketCS = cs + 3
+			upOpts = append(upOpts, options.GridFSUpload().SetChunkSizeBytes(int32(cs)))
+			c.Count("uploads_with_their_own_chunk_size", 1)
+		}
+		e.bucket = lungo.NewBucket(db, options.GridFSBucket().SetChunkSizeBytes(int32(bucketCS)))
 		content := c18Content(r, length)
 		id := fmt.Sprintf("file-%d", idx)
 		name := fmt.Sprintf("name-%d", idx)
@@ -545,7 +556,7 @@ func c18Run(c *fw.Ctx, ctx context.Context, client lungo.IClient, r *fw.Rand, id
 			markerExists := false
 			nsusp := r.Range(1, 2)
 			for sp := 0; sp <= nsusp; sp++ {
-				s, err := e.bucket.OpenUploadStreamWithID(ctx, id, name)
+				s, err := e.bucket.OpenUploadStreamWithID(ctx, id, name, upOpts...)
 				if err != nil {
 					e.fail("gridfs:open-upload", "OpenUploadStreamWithID failed: "+err.Error())
 					return
